@@ -13,7 +13,7 @@ R-C01-5  guard discipline (shared instances of C08's rules): error suppression s
 """
 import ast
 
-from ..hints import pre_assume, replay, Valuer, all_cases, paths_to, NeedCase, Undecidable, Contradiction
+from ..hints import NONE, pre_assume, replay, Valuer, all_cases, paths_to, NeedCase, Undecidable, Contradiction
 from ..loader import norm, AnalysisError, parents
 from ..poly import P
 from .c06 import get_interp
@@ -40,9 +40,17 @@ def base_env(fi):
     return env
 
 
-def site_results(fi, call, premises=(), honest_premise=True):
+def mentions_guard(res):
+    """does some non-zero residue of these site results mention the guard wire itself?"""
+    return any(not isinstance(p, str) and not p.is_zero() and "guard" in p.symbols() for _path, cases in res for _d, p, _v in cases)
+
+
+def site_results(fi, call, premises=(), honest_premise=True, guard_value=None):
     """honest_premise=False: the site emits unconditionally and unguarded (add_constraint_unsafe called directly), so
-    the identity must hold on EVERY path and for either value of the active guard (LinComb.ONE is then the guard wire)."""
+    the identity must hold on EVERY path and for either value of the active guard (LinComb.ONE is then the guard wire).
+    guard_value "none" / 1 / 0: the scenario in which no guard is installed / the active guard has that value ("none" and 1 go
+    with the honest premise, 0 with is_guard() false and nothing known about error checking).  Used for constraints written
+    on the guard wire itself (`guard * y = 0`) and for emission code that distinguishes `guard is None`."""
     v_, w_, y_ = call.args[:3]
     paths = [p for p in paths_to(fi.node, call) if (honest(p) or not honest_premise)]
     out = []
@@ -51,7 +59,14 @@ def site_results(fi, call, premises=(), honest_premise=True):
             env = base_env(fi)
             if honest_premise:
                 env["LinComb.ONE"] = P.const(1)
+            if guard_value == "none":
+                env["guard"] = NONE
+            elif guard_value is not None:
+                env["guard"] = env["guard.value"] = P.const(guard_value)
             v = Valuer(env)
+            v.helpers = {s_.name: s_ for s_ in fi.module.tree.body if isinstance(s_, ast.FunctionDef)}
+            if guard_value == 0:
+                v.assume(ast.parse("is_guard()", mode="eval").body, False)
             t_g = ast.parse("is_guard()", mode="eval").body
             t_i = ast.parse("ignore_errors()", mode="eval").body
             if honest_premise:
@@ -130,7 +145,7 @@ def check(repo, rep, tier):
         raise AnalysisError("no call of backend.add_constraint found")
     # ---------------- R-C01-2 / R-C01-3
     r2 = rep.rule("R-C01-2", "unchecked emission sites: v*w - y is an identity of the hints", floor=5)
-    r3 = rep.rule("R-C01-3", "checked emission sites: identity on the honest path (needed under a true guard)", floor=5)
+    r3 = rep.rule("R-C01-3", "checked emission sites: identity on the honest path (needed under a true guard)", floor=3)
     for fi, call, kind in emission_sites(repo):
         rule = r2 if kind in ("unsafe", "direct") else r3
         where = fi.loc(call)
@@ -142,6 +157,14 @@ def check(repo, rep, tier):
             continue
         direct = kind == "direct" and fi.fq != RT + ":add_constraint"
         res = site_results(fi, call, PREMISES.get(fi.fq, ()), honest_premise=not direct)
+        on_guard = direct and any(not isinstance(p, str) and not p.is_zero() for _pa, cases in res for _d, p, _v in cases)
+        if on_guard:
+            # not an identity on every path: a constraint on the guard wire itself (guard * y = 0), or one emitted by code that
+            # looks at whether a guard is installed.  By scenario: honest witness without a guard and under a true guard, any
+            # recorded witness under a false one
+            res = site_results(fi, call, PREMISES.get(fi.fq, ()), honest_premise=True, guard_value="none") + \
+                site_results(fi, call, PREMISES.get(fi.fq, ()), honest_premise=True, guard_value=1) + \
+                site_results(fi, call, PREMISES.get(fi.fq, ()), honest_premise=False, guard_value=0)
         if not res:
             rule.undecided(where, fi.fq, norm(call), "no honest path reaches this site")
             continue
@@ -156,6 +179,10 @@ def check(repo, rep, tier):
                     bad.append((desc, p))
                 elif isinstance(p, str):
                     und.append((desc, p))
+                elif not p.is_zero() and any(str(s_).startswith("?") for s_ in p.symbols()):
+                    # the residue mentions a local whose value the analysis could not interpret (len(..), a sum over a list, a
+                    # helper's result): nothing is known either way
+                    und.append((desc, "not interpretable: v*w - y = %s" % p))
                 elif not p.is_zero():
                     bad.append((desc, p))
                 if v is not None:
@@ -172,7 +199,12 @@ def check(repo, rep, tier):
             rule.undecided(where, fi.fq, term, "; ".join("%s: %s" % (", ".join(d) or "-", u) for d, u in und[:2]))
         else:
             rule.ok(where, fi.fq, term, (("uses: " + "; ".join(sorted(lemmas))) if lemmas else "polynomial identity") + (
+                "; by guard scenario: honest path without a guard and for guard = 1, every path for guard = 0" if on_guard else
                 "; holds on every path and for either guard value (emitted unguarded)" if direct else ""))
+    # a site may move between the two rules (a checked emission rewritten as a direct one); together they cover every site
+    n_sites = sum(1 for r_ in (r2, r3) for i_ in r_.instances if i_.status in ("ok", "violation", "undecided"))
+    if n_sites < 12:
+        raise AnalysisError("only %d constraint emission sites analysed (R-C01-2 + R-C01-3), 12 were confirmed by hand" % n_sites)
     # ---------------- R-C01-5  (shared with C08)
     r5 = rep.rule("R-C01-5", "the premise 'checks not switched off' is not silently falsified: guard state is restored exactly", floor=10)
     from .c08 import guard_discipline
